@@ -78,11 +78,17 @@ func NewJSONBulkHandlerFactory(bulkMaxSize int) HandlerFactory {
 var _ HandlerFactory = (*jsonBulkHandlerFactory)(nil)
 
 func writeJSONResponse(w http.ResponseWriter, actions []string, results []BulkElementResult, error error) {
+	// a streamed bulk that could not be decoded to its end is a bad request, like a bulk
+	// one of whose elements failed
+	badRequest := error != nil
 	for _, result := range results {
 		if result.Error != nil {
-			w.WriteHeader(http.StatusBadRequest)
+			badRequest = true
 			break
 		}
+	}
+	if badRequest {
+		w.WriteHeader(http.StatusBadRequest)
 	}
 
 	slices.SortFunc(results, func(a, b BulkElementResult) int {
